@@ -28,7 +28,8 @@
 //                4 schnorrkel marker bit cleared 5 empty signature 6 signature over the header
 //                without ANY seal-typed item (a seal item inserted after sealing)
 //     cut        pre-digest data: 0 as encoded 1 tag only 2 tag+index 3 tag+index+slot
-//                4 three trailing bytes appended 5 empty
+//                4 three trailing bytes appended 5 empty; cut INSIDE a field: 6 inside the index
+//                7 inside the slot 8 inside the VRF output 9 inside the VRF proof
 //     eq         SlotState.CheckEquivocation: 0 returns no proof, 1 returns an error, 2 returns a
 //                proof that the (mock) runtime reports successfully, 3/4 returns a proof but
 //                the runtime's key ownership proof fails / is nil
@@ -42,9 +43,23 @@
 //     data for the same epoch number. op 0: VerifyBlock of a [pre seal] block on fork <fork>
 //     whose claim and seal are made with the keys/randomness of fork <sfork>; op 1: SetOnDisabled
 //     (idx, that header), executed only for its effect on the manager's state.
+//     The block number of the step's header is 1 + slot%3; the stub IsDescendantOf answers
+//     "same fork".
+//   ep <allowed> <n> <c1> <c2> <rseed> <kseed> <pg> <pe> <ce> <tag> <idx> <slot> <sd> <se> <hm>
+//     the choice of the epoch whose data governs the block.  The stub EpochState announces for
+//     EVERY epoch number d its own data: SecondarySlots (allowed+d)%3, keys from kseed+101*d,
+//     randomness from rseed+7*d.  pg: 0 the parent is an ordinary block of epoch <pe>, 1 the
+//     parent is the genesis block, 2 GetHeader(parent) fails; <ce> the block's epoch.  The author
+//     built the claim with the data of epoch <sd> and the number <se> in the VRF transcript
+//     (honest: sd = the data epoch, se = ce).  hm: stub failure 0 none, 1 GetEpochForBlock(block)
+//     2 GetEpochForBlock(parent) 3 GetSlotDuration 4 GetEpochDataRaw 5 GetConfigData.
 // observables:
 //   seq   -> per step, separated by " ; ": the v observable (oracles evaluated under the data of
-//            the block's own fork) or "sd"
+//            the block's own fork) or "sd:<ok|badidx|already|err>" (result of SetOnDisabled)
+//   ep    -> <class> <same> q=<epoch numbers asked of GetEpochDataRaw/GetConfigData, joined by
+//            +, or -> w=<the epoch the HARNESS expects to govern the block (own formula)> then
+//            the v oracle fields, evaluated under the data of epoch w with <ce> in the transcript
+//            further classes: noparent epoch-err pepoch-err epoch-lower slotdur info-err
 //   v     -> <class> <same> pre=<hex|-> key=<b> below=<t> vrf=<t> seal=<t>
 //            class: ok missing nopre noseal decode badidx over badslot badsec badsig other
 //                   equiv-err equivocated thr-err
@@ -152,10 +167,26 @@ func c24Keys(kseed uint64, n int) []*sr25519.Keypair {
 	return keys
 }
 
+// c24RndBytes derives the 32 randomness bytes of a scenario from its seed. The driver recomputes
+// them (props/C24/driver.ml rng_bytes), so the derivation is the harness's own splitmix64 and
+// does not depend on the seeding of verifutil's generator.
+func c24RndBytes(seed uint64) []byte {
+	s := seed*0x9E3779B97F4A7C15 + 0x1234567
+	b := make([]byte, 32)
+	for i := range b {
+		s += 0x9E3779B97F4A7C15
+		z := s
+		z = (z ^ (z >> 30)) * 0xBF58476D1CE4E5B9
+		z = (z ^ (z >> 27)) * 0x94D049BB133111EB
+		b[i] = byte(z ^ (z >> 31))
+	}
+	return b
+}
+
 func c24NewWorld(allowed, n, c1, c2, epoch, rseed, kseed, badkey uint64) *c24World {
 	w := &c24World{keys: c24Keys(kseed, int(n)), epoch: epoch,
 		cfg: &types.ConfigData{C1: c1, C2: c2, SecondarySlots: byte(allowed)}}
-	copy(w.rnd[:], vu.NewRNG(rseed).Bytes(32))
+	copy(w.rnd[:], c24RndBytes(rseed))
 	for i := 0; i < int(n); i++ {
 		var a types.AuthorityRaw
 		pk := w.keys[i].Public().(*sr25519.PublicKey).AsBytes()
@@ -201,9 +232,21 @@ func c24Class(err error) string {
 		return "badsig"
 	case errors.Is(err, ErrProducerEquivocated):
 		return "equivocated"
+	case errors.Is(err, errEpochLowerThanExpected):
+		return "epoch-lower"
 	}
 	s := err.Error()
 	switch {
+	case strings.HasPrefix(s, "getting header"):
+		return "noparent"
+	case strings.HasPrefix(s, "getting epoch for block header"):
+		return "epoch-err"
+	case strings.HasPrefix(s, "getting epoch for parent header"):
+		return "pepoch-err"
+	case strings.HasPrefix(s, "getting current slot duration"):
+		return "slotdur"
+	case strings.HasPrefix(s, "getting verifier info") && !strings.Contains(s, "failed to calculate threshold"):
+		return "info-err"
 	case strings.Contains(s, "could not verify block equivocation"):
 		return "equiv-err"
 	case strings.Contains(s, "failed to calculate threshold"):
@@ -298,6 +341,7 @@ func c24DigestBytes(h *types.Header) []byte {
 type c24Params struct {
 	slot, shape, tag, idx, vrfkey, vrftamper, sealkey, sealtamper, cut uint64
 	t1, t2                                                                uint64 // positions of the bit flips
+	num                                                                   uint64 // block number (0: 1)
 }
 
 // c24Build builds the header described by p on top of parentHash. The claim is made with the
@@ -353,6 +397,22 @@ func c24Build(w, signer *c24World, parentHash common.Hash, p c24Params) (*types.
 		data = append(data, 7, 7, 7)
 	case 5:
 		data = []byte{}
+	case 6:
+		data = data[:3]
+	case 7:
+		data = data[:9]
+	case 8:
+		if len(data) > 30 {
+			data = data[:30]
+		} else {
+			data = data[:12]
+		}
+	case 9:
+		if len(data) > 100 {
+			data = data[:100]
+		} else {
+			data = data[:6]
+		}
 	}
 	pre := types.PreRuntimeDigest{ConsensusEngineID: types.BabeEngineID, Data: data}
 	cons := types.ConsensusDigest{ConsensusEngineID: types.BabeEngineID, Data: []byte{1, 2, 3}}
@@ -363,8 +423,12 @@ func c24Build(w, signer *c24World, parentHash common.Hash, p c24Params) (*types.
 
 	// ---- header and seal
 	r := vu.NewRNG(p.t1 ^ 0x5555)
+	num := uint(1)
+	if p.num != 0 {
+		num = uint(p.num)
+	}
 	header := types.NewHeader(parentHash, common.BytesToHash(r.Bytes(32)),
-		common.BytesToHash(r.Bytes(32)), 1, types.NewDigest())
+		common.BytesToHash(r.Bytes(32)), num, types.NewDigest())
 	var before []any // the items preceding the seal in the layouts that have one
 	switch p.shape {
 	case 0, 3, 4:
@@ -499,6 +563,7 @@ func c24RunV(f []string) string {
 type c24ForkBlock struct {
 	BlockState
 	parents map[common.Hash]*types.Header
+	forkOf  map[common.Hash]uint64
 }
 
 func (b *c24ForkBlock) GetHeader(h common.Hash) (*types.Header, error) {
@@ -508,7 +573,14 @@ func (b *c24ForkBlock) GetHeader(h common.Hash) (*types.Header, error) {
 	return nil, errors.New("c24 stub: unknown header")
 }
 func (b *c24ForkBlock) GenesisHash() common.Hash                          { return common.Hash{0xaa} }
-func (b *c24ForkBlock) IsDescendantOf(_, _ common.Hash) (bool, error)     { return false, nil }
+func (b *c24ForkBlock) IsDescendantOf(a, d common.Hash) (bool, error) {
+	fa, ok1 := b.forkOf[a]
+	fd, ok2 := b.forkOf[d]
+	if !ok1 || !ok2 {
+		return false, errors.New("c24 stub: unknown block")
+	}
+	return fa == fd, nil
+}
 func (b *c24ForkBlock) BestBlockHash() common.Hash                        { return common.Hash{0xaa} }
 
 type c24ForkEpoch struct {
@@ -554,7 +626,7 @@ func c24RunSeq(f []string) string {
 		c24NewWorld(a[8], a[9], a[10], a[11], epoch, a[12], a[13], 0xff),
 	}
 	parents := make([]*types.Header, 2)
-	bs := &c24ForkBlock{parents: map[common.Hash]*types.Header{}}
+	bs := &c24ForkBlock{parents: map[common.Hash]*types.Header{}, forkOf: map[common.Hash]uint64{}}
 	es := &c24ForkEpoch{epoch: epoch, worlds: map[common.Hash]*c24World{}}
 	for i := range parents {
 		p := types.NewEmptyHeader()
@@ -573,20 +645,164 @@ func c24RunSeq(f []string) string {
 		if key > uint64(len(signer.auths)) {
 			key = uint64(len(signer.auths))
 		}
-		p := c24Params{slot: slot, tag: tag, idx: idx, vrfkey: key, sealkey: key, t1: a[6] + uint64(k), t2: a[7]}
+		p := c24Params{slot: slot, tag: tag, idx: idx, vrfkey: key, sealkey: key, t1: a[6] + uint64(k), t2: a[7],
+			num: 1 + slot%3}
 		header, oracles, e := c24Build(w, signer, parents[fork].Hash(), p)
 		if e != "" {
 			return e
 		}
 		if op == 1 {
-			// only for its effect on the manager's per-epoch cache
-			_ = vm.SetOnDisabled(uint32(idx), header)
-			out = append(out, "sd")
+			// for its effect on the manager's state (epochInfo, onDisabled) and its own answer
+			bs.forkOf[header.Hash()] = fork
+			err := vm.SetOnDisabled(uint32(idx), header)
+			cls := "err"
+			switch {
+			case err == nil:
+				cls = "ok"
+			case errors.Is(err, ErrInvalidBlockProducerIndex):
+				cls = "badidx"
+			case errors.Is(err, ErrAuthorityAlreadyDisabled):
+				cls = "already"
+			}
+			out = append(out, "sd:"+cls)
 			continue
 		}
 		out = append(out, c24Verified(header, vm.VerifyBlock)+" "+oracles)
 	}
 	return strings.Join(out, " ; ")
+}
+
+// ---- the epoch whose data governs the block
+
+// c24EpochWorld: the data the stub announces for epoch number d, with epoch number te in the
+// transcripts of whoever uses the world to sign / to evaluate the oracles.
+func c24EpochWorld(allowed, n, c1, c2, rseed, kseed, d, te uint64) *c24World {
+	return c24NewWorld((allowed+d)%3, n, c1, c2, te, rseed+7*d, kseed+101*d, 0xff)
+}
+
+type c24EpBlock struct {
+	BlockState
+	parent *types.Header
+	pg     uint64
+}
+
+func (b *c24EpBlock) GetHeader(common.Hash) (*types.Header, error) {
+	if b.pg == 2 {
+		return nil, errors.New("c24 stub: unknown parent")
+	}
+	return b.parent, nil
+}
+func (b *c24EpBlock) GenesisHash() common.Hash {
+	if b.pg == 1 {
+		return b.parent.Hash()
+	}
+	return common.Hash{0xaa}
+}
+func (b *c24EpBlock) BestBlockHash() common.Hash { return common.Hash{0xaa} }
+
+type c24EpEpoch struct {
+	EpochState
+	mk      func(d uint64) *c24World
+	pe, ce  uint64
+	hm      uint64
+	queried []uint64
+}
+
+func (e *c24EpEpoch) GetEpochForBlock(h *types.Header) (uint64, error) {
+	if h.Number == 10 { // the parent
+		if e.hm == 2 {
+			return 0, errors.New("c24 stub: no epoch for parent")
+		}
+		return e.pe, nil
+	}
+	if e.hm == 1 {
+		return 0, errors.New("c24 stub: no epoch for block")
+	}
+	return e.ce, nil
+}
+func (e *c24EpEpoch) GetSlotDuration() (time.Duration, error) {
+	if e.hm == 3 {
+		return 0, errors.New("c24 stub: no slot duration")
+	}
+	return 6 * time.Second, nil
+}
+func (e *c24EpEpoch) note(d uint64) {
+	for _, q := range e.queried {
+		if q == d {
+			return
+		}
+	}
+	e.queried = append(e.queried, d)
+}
+func (e *c24EpEpoch) GetEpochDataRaw(d uint64, _ *types.Header) (*types.EpochDataRaw, error) {
+	e.note(d)
+	if e.hm == 4 {
+		return nil, errors.New("c24 stub: no epoch data")
+	}
+	w := e.mk(d)
+	return &types.EpochDataRaw{Authorities: w.auths, Randomness: w.rnd}, nil
+}
+func (e *c24EpEpoch) GetConfigData(d uint64, _ *types.Header) (*types.ConfigData, error) {
+	e.note(d)
+	if e.hm == 5 {
+		return nil, errors.New("c24 stub: no config data")
+	}
+	return e.mk(d).cfg, nil
+}
+
+// c24WantEpoch is the harness's own statement of which epoch's data governs a block of epoch ce
+// whose parent (genesis or not) lies in epoch pe.
+func c24WantEpoch(pg, pe, ce uint64) (uint64, bool) {
+	if pg == 1 {
+		return ce, true
+	}
+	if ce < pe {
+		return 0, false
+	}
+	if ce-pe > 1 {
+		return pe + 1, true
+	}
+	return ce, true
+}
+
+func c24RunEp(f []string) string {
+	a := make([]uint64, len(f))
+	for i := 1; i < len(f); i++ {
+		a[i] = vu.UnX(f[i])
+	}
+	allowed, n, c1, c2, rseed, kseed := a[1], a[2], a[3], a[4], a[5], a[6]
+	pg, pe, ce, tag, idx, slot, sd, se, hm := a[7], a[8], a[9], a[10], a[11], a[12], a[13], a[14], a[15]
+	want, ok := c24WantEpoch(pg, pe, ce)
+	if !ok {
+		want = ce
+	}
+	w := c24EpochWorld(allowed, n, c1, c2, rseed, kseed, want, ce)
+	signer := c24EpochWorld(allowed, n, c1, c2, rseed, kseed, sd, se)
+	parent := types.NewEmptyHeader()
+	parent.Number = 10
+	parent.StateRoot = common.Hash{0xb}
+	key := idx
+	if key > n {
+		key = n
+	}
+	p := c24Params{slot: slot, tag: tag, idx: idx, vrfkey: key, sealkey: key, t1: rseed, t2: kseed}
+	header, oracles, e := c24Build(w, signer, parent.Hash(), p)
+	if e != "" {
+		return e
+	}
+	es := &c24EpEpoch{pe: pe, ce: ce, hm: hm,
+		mk: func(d uint64) *c24World { return c24EpochWorld(allowed, n, c1, c2, rseed, kseed, d, ce) }}
+	vm := NewVerificationManager(&c24EpBlock{parent: parent, pg: pg}, &c24Slot{mode: 0}, es)
+	res := c24Verified(header, vm.VerifyBlock)
+	q := "-"
+	if len(es.queried) > 0 {
+		var qs []string
+		for _, d := range es.queried {
+			qs = append(qs, vu.X(d))
+		}
+		q = strings.Join(qs, "+")
+	}
+	return res + " q=" + q + " w=" + vu.X(want) + " " + oracles
 }
 
 func c24RunClaim(f []string) string {
@@ -648,6 +864,8 @@ func c24Run(in string) string {
 		return c24RunClaim(f)
 	case "seq":
 		return c24RunSeq(f)
+	case "ep":
+		return c24RunEp(f)
 	}
 	return "err:bad-input"
 }
@@ -656,7 +874,7 @@ func c24Run(in string) string {
 // (only to direct the generator; the model recomputes it with the Gallina BLAKE2b).
 func c24Author(rseed, slot, n uint64) uint64 {
 	var rnd Randomness
-	copy(rnd[:], vu.NewRNG(rseed).Bytes(32))
+	copy(rnd[:], c24RndBytes(rseed))
 	a, err := getSecondarySlotAuthor(slot, int(n), rnd)
 	if err != nil {
 		return 0
@@ -686,7 +904,7 @@ func c24Sweep(emit func(string)) {
 								if shape >= 8 && vt != 0 {
 									continue
 								}
-								for cut := uint64(0); cut <= 5; cut++ {
+								for cut := uint64(0); cut <= 9; cut++ {
 									if cut != 0 && (vt != 0 || st != 0 || shape != 0) {
 										continue
 									}
@@ -782,6 +1000,74 @@ func c24GenSeq(r *vu.RNG) string {
 	return s
 }
 
+// c24GenEp: parent epoch / block epoch relations (same epoch, next epoch, epochs skipped, block
+// epoch below the parent's, genesis parent), the author using the data of the governing epoch or
+// of another one (the block's own number when epochs were skipped, the parent's), and the
+// block's epoch or the data epoch in the VRF transcript; stub failures.
+func c24GenEp(r *vu.RNG) string {
+	allowed, n := uint64(r.Intn(3)), uint64(1+r.Intn(3))
+	c2 := uint64(1)
+	if r.Chance(1, 4) {
+		c2 = 1 << 40
+	}
+	rseed, kseed := uint64(r.Intn(1<<30)), uint64(r.Intn(1<<20))
+	pe := uint64(r.Intn(30))
+	var ce uint64
+	switch r.Intn(6) {
+	case 0:
+		ce = pe
+	case 1:
+		ce = pe + 1
+	case 2:
+		ce = pe + 2
+	case 3:
+		ce = pe + 2 + uint64(r.Intn(9))
+	case 4:
+		if pe > 0 {
+			ce = pe - 1 - uint64(r.Intn(int(pe)))
+		}
+	default:
+		ce = uint64(r.Intn(40))
+	}
+	pg := uint64(0)
+	if r.Chance(1, 5) {
+		pg = 1
+	}
+	if r.Chance(1, 30) {
+		pg = 2
+	}
+	want, ok := c24WantEpoch(pg, pe, ce)
+	if !ok {
+		want = ce
+	}
+	sd, se := want, ce
+	switch r.Intn(8) {
+	case 0:
+		sd = ce // the block's own epoch number although epochs were skipped
+	case 1:
+		sd = pe
+	case 2:
+		se = want // the data epoch in the transcript
+	case 3:
+		sd, se = ce, want
+	case 4:
+		sd = want + 1
+	}
+	hm := uint64(0)
+	if r.Chance(1, 15) {
+		hm = uint64(1 + r.Intn(5))
+	}
+	slot := uint64(r.Intn(1 << 20))
+	// an honest claim of the signer's world: the kind its configuration names, by the slot's author
+	sa := (allowed + sd) % 3
+	tag, idx := uint64(1), uint64(r.Intn(int(n)))
+	if sa != 0 && (c2 != 1 || r.Chance(1, 2)) {
+		tag, idx = sa+1, c24Author(rseed+7*sd, slot, n)
+	}
+	return fmt.Sprintf("ep %x %x %x %x %x %x %x %x %x %x %x %x %x %x %x", allowed, n, 1, c2, rseed, kseed,
+		pg, pe, ce, tag, idx, slot, sd, se, hm)
+}
+
 func c24Gen(r *vu.RNG, total int, emit func(string)) {
 	thresholds := [][2]uint64{{1, 1}, {1, 1}, {1, 4}, {1, 2}, {1, 1 << 40}, {3, 4}}
 	if vu.Thorough() {
@@ -800,6 +1086,10 @@ func c24Gen(r *vu.RNG, total int, emit func(string)) {
 		author := c24Author(rseed, slot, n)
 		if r.Chance(1, 8) {
 			emit(c24GenSeq(r))
+			continue
+		}
+		if r.Chance(1, 9) {
+			emit(c24GenEp(r))
 			continue
 		}
 		if r.Chance(1, 6) {
@@ -839,6 +1129,10 @@ func c24Gen(r *vu.RNG, total int, emit func(string)) {
 				sealtamper = 6 // ... or the seal only covers the header without any seal-typed item
 			}
 		}
+		if r.Chance(1, 10) {
+			// an otherwise untouched block whose equivocation check answers: error / proof / report failing
+			eq = uint64(1 + r.Intn(4))
+		}
 		if r.Chance(1, 8) && n >= 2 && (allowed == 1 || allowed == 2) {
 			// a secondary claim of the allowed kind by an authority that is not the slot's author
 			tag = allowed + 1
@@ -875,7 +1169,7 @@ func c24Gen(r *vu.RNG, total int, emit func(string)) {
 			case 6:
 				shape = uint64(r.Intn(11))
 			case 7:
-				cut = uint64(1 + r.Intn(5))
+				cut = uint64(1 + r.Intn(9))
 			case 8:
 				tag = []uint64{0, 4, 1, 2, 3, 0xff}[r.Intn(6)]
 			case 9:
